@@ -769,8 +769,10 @@ impl Swift {
         let output_string = self.get_codable_contents();
         let output_path = Path::new(output_folder).join("Codable.swift");
 
+        // `write_codable` terminates the contents with a newline; compare with what is on disk
+        // accordingly so an unchanged file is left alone (mtime preserved).
         if let Ok(buf) = fs::read(&output_path) {
-            if buf == output_string.as_bytes() {
+            if buf == format!("{output_string}\n").as_bytes() {
                 return Ok(());
             }
         }
